@@ -190,6 +190,7 @@ type structInfo struct {
 	ctor   string
 	fields []structField
 	opaque bool
+	gotype types.Type
 	typ    *types.Struct
 	named  string
 }
@@ -267,7 +268,7 @@ func (ss *Sorts) structOf(t types.Type) *structInfo {
 		return si
 	}
 	st := t.Underlying().(*types.Struct)
-	si := &structInfo{typ: st}
+	si := &structInfo{typ: st, gotype: t}
 	ss.structs[key] = si
 	opaque := false
 	if n, ok := t.(*types.Named); ok {
